@@ -47,7 +47,7 @@ theorem callbacks_frame (hR : NoRaise sc) (hC : NoCmds sc) (slot : Slot) (x : Ct
   exact ⟨s', h, f⟩
 
 theorem changeState_okk (hR : NoRaise sc) (hC : NoCmds sc) (x : Ctx) (t : Trans) (d : Nat) (s : St)
-    (hs : (cfg.state? t.source).isSome) (hd : (cfg.state? d).isSome) :
+    (hs : (cfg.state? (s.stateOf x.model)).isSome) (hd : (cfg.state? d).isSome) :
     ∃ s', changeState sub sc cfg x t d s = .ok () s' := by
   obtain ⟨sdef, hs⟩ := Option.isSome_iff_exists.mp hs
   obtain ⟨ddef, hd⟩ := Option.isSome_iff_exists.mp hd
@@ -60,7 +60,7 @@ theorem changeState_okk (hR : NoRaise sc) (hC : NoCmds sc) (x : Ctx) (t : Trans)
 
 /-- `Transition.execute` of a well-formed transition under the hypotheses: returns whether it passed -/
 theorem execute_det (hR : NoRaise sc) (hC : NoCmds sc) (hD : Deterministic sc) (x : Ctx) (t : Trans) (s : St)
-    (hok : cfg.TransOK t) :
+    (hok : cfg.TransOK t) (hcur : (cfg.state? (s.stateOf x.model)).isSome) :
     ∃ s', execute sub sc cfg x t s = .ok (passes sc t) s' ∧ (passes sc t = false → Frame s s') := by
   obtain ⟨s1, e1, f1⟩ := callbacks_frame sub sc hR hC .prepare x t.prepare s
   obtain ⟨s2, e2, f2⟩ := evalConds_det sub sc hR hC hD x t.conds s1
@@ -70,31 +70,34 @@ theorem execute_det (hR : NoRaise sc) (hC : NoCmds sc) (hD : Deterministic sc) (
     exact ⟨s2, by simp [execute, e1, Res.bind, e2, hp'], fun _ => f1.trans f2⟩
   | true =>
     have hp' : condsPass sc t.conds = true := hp
-    obtain ⟨s3, e3, _⟩ := callbacks_frame sub sc hR hC .beforeSC x cfg.beforeSC s2
-    obtain ⟨s4, e4, _⟩ := callbacks_frame sub sc hR hC .before x t.before s3
+    obtain ⟨s3, e3, f3⟩ := callbacks_frame sub sc hR hC .beforeSC x cfg.beforeSC s2
+    obtain ⟨s4, e4, f4⟩ := callbacks_frame sub sc hR hC .before x t.before s3
+    have hcur4 : (cfg.state? (s4.stateOf x.model)).isSome := by
+      rw [(((f1.trans f2).trans f3).trans f4).stateOf]; exact hcur
     cases hd : t.dest with
     | none =>
       obtain ⟨s6, e6, _⟩ := callbacks_frame sub sc hR hC .after x t.after s4
       obtain ⟨s7, e7, _⟩ := callbacks_frame sub sc hR hC .afterSC x cfg.afterSC s6
       exact ⟨s7, by simp [execute, e1, Res.bind, e2, hp', e3, e4, hd, e6, e7], fun h => by cases h⟩
     | some d =>
-      obtain ⟨s5, e5⟩ := changeState_okk sub sc cfg hR hC x t d s4 hok.1 (hok.2 d hd)
+      obtain ⟨s5, e5⟩ := changeState_okk sub sc cfg hR hC x t d s4 hcur4 (hok.2 d hd)
       obtain ⟨s6, e6, _⟩ := callbacks_frame sub sc hR hC .after x t.after s5
       obtain ⟨s7, e7, _⟩ := callbacks_frame sub sc hR hC .afterSC x cfg.afterSC s6
       exact ⟨s7, by simp [execute, e1, Res.bind, e2, hp', e3, e4, hd, e5, e6, e7], fun h => by cases h⟩
 
 theorem tryTransitions_det (hR : NoRaise sc) (hC : NoCmds sc) (hD : Deterministic sc) (x : Ctx) :
     ∀ (ts : List Trans) (s : St),
-    (∀ t ∈ ts, cfg.TransOK t) →
+    (∀ t ∈ ts, cfg.TransOK t) → (cfg.state? (s.stateOf x.model)).isSome →
     ∃ s', tryTransitions sub sc cfg x ts s = .ok (ts.any (passes sc)) s'
-  | [], s, _ => ⟨s, rfl⟩
-  | t :: ts, s, hts => by
+  | [], s, _, _ => ⟨s, rfl⟩
+  | t :: ts, s, hts, hcur => by
     have hok := hts t (List.mem_cons_self ..)
-    obtain ⟨s1, e1, _⟩ := execute_det sub sc cfg hR hC hD x t s hok
+    obtain ⟨s1, e1, f1⟩ := execute_det sub sc cfg hR hC hD x t s hok hcur
     cases hp : passes sc t with
     | true => exact ⟨s1, by simp [tryTransitions, e1, Res.bind, hp]⟩
     | false =>
       obtain ⟨s2, e2⟩ := tryTransitions_det hR hC hD x ts s1 (fun t' ht' => hts t' (List.mem_cons_of_mem _ ht'))
+        (by rw [(f1 hp).stateOf]; exact hcur)
       exact ⟨s2, by simp [tryTransitions, e1, Res.bind, hp, e2]⟩
 
 /-- the `may_` loop: True iff some candidate (with a registered destination) passes; engine state
